@@ -176,29 +176,37 @@ let run_dp (n : int) (head : bool) : unit =
               c_def_state = (fun m -> (defstate lsr (method_index m)) land 1 = 1) } in
   let orc_of (_ : nat) : int oracle = table_oracle [] in
   let rec range a b = if a >= b then [] else a :: range (a + 1) b in
-  let ops = WConstruct (O, false) :: List.concat_map (fun k -> [WOp (O, OImmChange (nat_of_int k)); WOp (O, OUpdate); WOp (O, OReact); WOp (O, OQuery)]) (range 0 n) in
-  let w = wrun cfg orc_of (nat_of_int 1) ops in
+  let ops = WConstruct (O, false) :: List.concat_map (fun k -> [WOp (O, OImmChange (nat_of_int k)); WOp (O, OUpdate); WOp (O, OReact); WOp (O, OQuery); WCopy (S O, O); WOp (S O, OUpdate); WDestroy (S O)]) (range 0 n) in
+  let w = wrun cfg orc_of (nat_of_int 2) ops in
   let states = List.map nat_of_int (range 0 n) in
   let nat_eqb a b = int_of_nat a = int_of_nat b in
   let root_id = state_id nat_eqb states (nat_of_int 100000) in
   Printf.printf "n=%d head=%d rootId=%d construct:" n (if head then 1 else 0) (int_of_nat root_id);
-  let call = ref (-1) and last = ref (-1) in
+  let call = ref (-1) and last = ref (-1) and pending = ref None in
   List.iter (fun g ->
       match g with
-      | GBegin _ -> incr call; if !call > 0 && (!call - 1) mod 4 = 0 then Printf.printf "k=%d" ((!call - 1) / 4)
+      | GBegin _ -> incr call;
+        if !call > 0 && (!call - 1) mod 7 = 0 then Printf.printf "k=%d" ((!call - 1) / 7);
+        if !call > 0 && (!call - 1) mod 7 = 5 then Printf.printf " copy:"
       | GEv (_, EvCb (Root, Own, MEnter, v)) -> Printf.printf " rootEnter=%d" (int_of_nat v.v_id)
-      | GEv (_, EvCb (St x, Own, m, v)) -> last := int_of_nat x; Printf.printf " %s=%d/%d" method_names.(method_index m) (int_of_nat x) (int_of_nat v.v_id)
+      | GEv (i, EvCb (St x, Own, m, v)) ->
+        if int_of_nat i = 0 then last := int_of_nat x;
+        if int_of_nat i = 0 || (!call - 1) mod 7 >= 5 then Printf.printf " %s=%d/%d" method_names.(method_index m) (int_of_nat x) (int_of_nat v.v_id)
       | GEv _ -> ()
-      | GEnd _ -> ()
-      | GObs (_, o) ->
+      | GEnd _ ->
+        if !call > 0 && (!call - 1) mod 7 = 6 then begin
+          (match !pending with
+           | Some o ->
+             let k = (!call - 1) / 7 in
+             let sid = int_of_nat (state_id nat_eqb states (nat_of_int !last)) in
+             let isact = List.nth o.o_act k in
+             Printf.printf " sid=%d self=%d active=%d isActive=%s%s\n" sid (if !last = k then 1 else 0) (int_of_nat o.o_active)
+               (if isact then "1" else "0") (if isact then "1" else "0")
+           | None -> ())
+        end
+      | GObs (i, o) ->
         if !call = 0 then Printf.printf " active=%d\n" (int_of_nat o.o_active)
-        else if (!call - 1) mod 4 = 3 then begin
-          let k = (!call - 1) / 4 in
-          let sid = int_of_nat (state_id nat_eqb states (nat_of_int !last)) in
-          let isact = List.nth o.o_act k in
-          Printf.printf " sid=%d self=%d active=%d isActive=%s%s\n" sid (if !last = k then 1 else 0) (int_of_nat o.o_active)
-            (if isact then "1" else "0") (if isact then "1" else "0")
-        end)
+        else if int_of_nat i = 0 && (!call - 1) mod 7 = 3 then pending := Some o)
     (List.rev w.glog)
 
 (* ---- C01 mode: "c01mon <n>": run the extracted lifecycle automaton (Proofs/LifeMonitor.v, cb_step) over a trace read from stdin
